@@ -1,7 +1,7 @@
 import SimbodyModel.Proto
 import SimbodyModel.C17
-/-! Driver for C17.  For every record `I cf threads hasParallel mode D nf {par pos nc {slot:val:reps}}…` it builds the
-transcription of the current code (`C17.configCurrent`), runs the transition system (`C17.run`) along the
+/-! Driver for C17.  For every record `I cf threads mode D nf {dbd en par pos nc {slot:val:reps}}…` it builds the
+transcription of the current code for the whole subsystem with its enabled mask (`C17.configSubsystem`), runs the transition system (`C17.run`) along the
 sequential — hence race-free — schedule, checks that all workers completed, and prints the resulting shared
 arrays (plus, in mode `NonCached`, the content of the position-only cache that `realizeSubsystemDynamicsImpl` adds
 afterwards).  `total_order_independent` says every race-free complete schedule gives this same value. -/
@@ -28,15 +28,16 @@ def parseContrib (t : String) : V :=
   | [s, v, r] => unit s.toNat! (v.toInt! * r.toInt!)
   | _ => 0
 
-/-- parse `nf` forces from the token list -/
-partial def parseForces (nf : Nat) (toks : List String) (acc : Array (C17.ForceElt V)) : Array (C17.ForceElt V) :=
+/-- parse `nf` forces (`dbd en par pos nc contribs…`) from the token list; `dbd` (disabled by default) is history only:
+what matters to the model is the current enabled flag -/
+partial def parseForces (nf : Nat) (toks : List String) (acc : Array (C17.MForce V)) : Array (C17.MForce V) :=
   if nf == 0 then acc else
   match toks with
-  | par :: pos :: nc :: rest =>
+  | _dbd :: en :: par :: pos :: nc :: rest =>
     let n := nc.toNat!
     let cs := rest.take n
     let value : V := cs.foldl (fun s t => s + parseContrib t) 0
-    parseForces (nf - 1) (rest.drop n) (acc.push ⟨par == "1", pos == "1", value⟩)
+    parseForces (nf - 1) (rest.drop n) (acc.push ⟨en == "1", ⟨par == "1", pos == "1", value⟩⟩)
   | _ => acc
 
 def modeOf : Nat → C17.Mode
@@ -46,11 +47,11 @@ def modeOf : Nat → C17.Mode
 
 def handle (toks : List String) : String :=
   match toks with
-  | th :: hp :: md :: d :: nf :: rest =>
-    let forces := (parseForces nf.toNat! rest #[]).toList
+  | th :: md :: d :: nf :: rest =>
+    let all := (parseForces nf.toNat! rest #[]).toList
+    let forces := C17.enabledElts all
     let mode := modeOf md.toNat!
-    let threads := C17.effectiveThreads th.toNat! (hp == "1")
-    let c := C17.configCurrent threads mode forces
+    let c := C17.configSubsystem th.toNat! mode all
     let s := C17.run c (C17.init (0 : V)) (C17.sequentialSchedule c)
     let complete := (List.range c.n).all (fun w => (s.wk w).pc == .done)
     if !complete then "O cf MODEL-INCOMPLETE" else
